@@ -30,7 +30,7 @@ func (c14) Rule() string {
 }
 func (c14) Batches(string) int { return 16 }
 func (c14) Required(string) []string {
-	return []string{"compared", "invocations", "variant.pooled", "variant.unpooled", "variant.reused", "nested_invocations", "errors_propagated", "tag.call-variadic", "tag.call-spread", "tag.assign-captured", "concurrent_runs"}
+	return []string{"compared", "invocations", "variant.pooled", "variant.unpooled", "variant.reused", "nested_invocations", "errors_propagated", "tag.call-variadic", "tag.call-spread", "tag.assign-captured", "concurrent_runs", "tail_mix_programs"}
 }
 func (c14) Assumptions() []string {
 	return []string{"run A (in-script calls through a script-defined CALL) is the reference", "the process-wide VM pool is primed by the previously executed programs of the same batch"}
@@ -232,6 +232,25 @@ func (m c14) Run(c *core.Ctx) {
 			}
 			if ok, _ := m.pair(c, src, mod0, nil, v); ok {
 				c.Nontrivial(v + src)
+			}
+		}
+	}
+	// plans of self calls (returned / discarded, tail / non-tail, throwing) run one after the other through the same function
+	for form := 0; form < 2; form++ {
+		for pi, src := range gen.TailMixPrograms("CALL", form) {
+			for _, v := range variants {
+				idx++
+				if idx%c.NBatch != c.Batch {
+					continue
+				}
+				src, v := src, v
+				if !c.Begin(func() string { return v + "\n" + src }) {
+					continue
+				}
+				if ok, _ := m.pair(c, src, nil, nil, v); ok {
+					c.Count("tail_mix_programs")
+					c.Nontrivial(fmt.Sprintf("tailmix-%d-%d-%s", form, pi, v))
+				}
 			}
 		}
 	}
